@@ -135,7 +135,8 @@ def harness_build(profile="debug", hooks=True, features=None, extra_rustflags=""
     lock = os.path.join(hdir, "Cargo.lock")
     if not os.path.exists(lock):
         shutil.copy(os.path.join(REPO, "Cargo.lock"), lock)
-    tag = tag or (("hook" if hooks else "plain") + ("-" + "_".join(features) if features is not None else ""))
+    tag = tag or (("hook" if hooks else "plain") + ("-" + ("_".join(features) or "none") if features is not None else "")
+                  + ("-" + re.sub(r"[^a-z0-9]+", "", extra_rustflags.lower()) if extra_rustflags else ""))
     target = os.path.join(BUILD, "target-" + tag)
     flags = (f"--cfg {GUARD} " if hooks else "") + extra_rustflags
     cmd = ["cargo", "build", "--offline", "--quiet"]
